@@ -5,7 +5,7 @@ import hashlib
 import json
 import time
 
-from . import core, x_timeout
+from . import core, x_timeout, x_observers
 from .core import Inconclusive
 
 COMMON_ASSUMPTIONS = [
@@ -191,3 +191,43 @@ PROPS = {
         models=[],
     ),
 }
+
+_OBS_CFG = 'SPECIFICATION Spec\nINVARIANT NotStuck Finished\n'
+PROPS['C20'] = dict(
+    gen=x_observers.generate, trace_spec='ObserversTrace.tla', own_attribution=True,
+    rule='one client and one served connection with recording interceptors and stats handlers; every RPC kind '
+         '(unary, bidi, client-stream, server-stream) x outcome (ok, handler error incl. io.EOF, caller cancel, context '
+         'cancelled beforehand, deadline on the virtual clock, client read failure in flight, failed open = client '
+         'write error, client write failure in mid-stream, server write failure, call on a dead connection) x server chain length 0..6 (goat.ChainXInterceptor, single-interceptor option for 1) '
+         'x client chain length 0..3 (by hand / go-grpc-middleware / single) x 1..3 stats handlers per side, with '
+         'unrelated RPCs before and after; every stage rewrites metadata, request, reply and error; '
+         'non-trivial = runs at least one observed RPC (all scenarios); distinct = distinct (configuration, RPC list)',
+    nontrivial_ops=['rpc:ok', 'rpc:herr', 'rpc:cancel', 'rpc:precancel', 'rpc:deadline', 'rpc:cread', 'rpc:cwrite',
+                    'rpc:cwmid', 'rpc:swrite', 'rpc:dead'],
+    assumptions=COMMON_ASSUMPTIONS + [
+        'the recording interceptors and stats handlers of harness/driver/x_observers.go log what they see at the '
+        'point where they see it; an error is compared by status code and message, the way it survives the wire',
+        'client interceptor chains are built by the caller (by hand or with go-grpc-middleware); goat installs one',
+        'End is not required to be the last event of an RPC (the property does not say so): a reply still being '
+        'consumed by the caller may be reported after End',
+        'client-side ConnBegin/ConnEnd are only checked for order (the property speaks of served connections)',
+    ],
+    models=[
+        dict(name='observers-design', spec='Observers.tla', cfg=_OBS_CFG, workers=8,
+             constants='chained.go builders, processUnaryRpc/runStream, invoke/newStream, StatsStartServerRPC/'
+                       'StatsEndRPC transcribed; client chain 0..3, server chain 0..6, 1..3 stats handlers per side, '
+                       'unary + stream, outcomes ok/herr/cancel/cwrite: 2016 programs replayed through the automata; '
+                       'ASSUME ChainShape for n = 1..6'),
+        dict(name='observers-mutant-skiplast', spec='Observers.tla',
+             cfg=_OBS_CFG + 'CONSTANT Mut <- MutSkipLast\nCONSTANT MaxC <- MaxC1\nCONSTANT MaxH <- MaxH2\n', workers=4,
+             constants='seeded fault: chain builder stops one interceptor early (curr >= len-2)',
+             expect_violation='Invariant NotStuck is violated'),
+        dict(name='observers-mutant-tagafter', spec='Observers.tla',
+             cfg=_OBS_CFG + 'CONSTANT Mut <- MutTagAfter\nCONSTANT MaxC <- MaxC1\nCONSTANT MaxS <- MaxS2\n', workers=4,
+             constants='seeded fault: Begin delivered with the context from before TagRPC',
+             expect_violation='Invariant NotStuck is violated'),
+        dict(name='observers-mutant-dupend', spec='Observers.tla',
+             cfg=_OBS_CFG + 'CONSTANT Mut <- MutDupEnd\nCONSTANT MaxC <- MaxC1\nCONSTANT MaxS <- MaxS2\nCONSTANT MaxH <- MaxH2\n', workers=4,
+             constants='seeded fault: End emitted twice for a stream',
+             expect_violation='Invariant NotStuck is violated'),
+    ])
